@@ -84,7 +84,7 @@ EXTRA["C15"] = {
             "Part B (join data-flow kernel): each join site of the real checker - check_match (inferring and checking), "
             "infer_if, infer_try, the list and dict literal arms of infer_expr_, the list arm of check_expr_ - is executed "
             "with per-element inference stubbed to one distinct type token per element and unify / unify_all stubbed to "
-            "record their input; decided on every path (0..2 elements quick / 0..3, every pattern shape): the join receives "
+            "record their input; decided on every path (0..2 elements quick / 0..3, match 1..2 arms, every pattern shape): the join receives "
             "exactly the tokens of all elements, once, and in inferring mode the site returns a type built from the join's "
             "result. Replay: ill-typed programs per site and element position through `garden check`.",
     "note": "Trusted: rsx, z3, structural model of derive(PartialEq) on Type. Bounded, not a proof. Part B assumes the "
